@@ -19,7 +19,7 @@ def seg_key(seg):
     return (float(seg.baseline_cpu_seconds), law[0] if law else "?", float(seg.storage_read_gb))
 
 
-def step_generator(params, nticks, max_pipelines, stats, check=True, direct=False):
+def step_generator(params, nticks, max_pipelines, stats, check=True, direct=False, companion=None):
     """Step a fresh generator; structural oracle on every emission; returns gaps (ticks)."""
     import_repo()
     from eudoxia.workload import WorkloadGenerator
@@ -30,7 +30,15 @@ def step_generator(params, nticks, max_pipelines, stats, check=True, direct=Fals
     t = 0
     npl = params["num_pipelines"]
     probs = {"INTERACTIVE": params["interactive_prob"], "QUERY": params["query_prob"], "BATCH_PIPELINE": params["batch_prob"]}
+    others = []
     while t < nticks and stats["pipelines"] < max_pipelines:
+        if companion is not None and stats["events"] == 2 and not others:
+            # a second generator with other parameters is built (and used) while this one is in the middle of its run:
+            # two workloads merged by a caller, a second simulation set up in the same process
+            g2 = WorkloadGenerator(**companion)
+            for _ in range(5):
+                g2.run_one_tick()
+            others.append(g2)
         if direct and t % 97 == 13:
             # a caller taking an extra batch through the public generate_pipelines() (a burst, an initial backlog)
             for p in g.generate_pipelines():
@@ -124,7 +132,8 @@ def run_gen(scn):
     params = dict(scn["params"])
     st = new_stats()
     try:
-        gaps = step_generator(params, scn["nticks"], scn["max_pipelines"], st, direct=bool(scn.get("direct_batches")))
+        gaps = step_generator(params, scn["nticks"], scn["max_pipelines"], st, direct=bool(scn.get("direct_batches")),
+                              companion=scn.get("companion"))
         n = st["pipelines"]
         probes = {"events": st["events"], "pipelines": n}
         # priorities follow the configured probabilities
@@ -203,4 +212,8 @@ def gen_scn(r, tier):
     return {"kind": "gen", "params": params, "nticks": 10 ** 9, "max_pipelines": maxp,
             "paired": r.random() < 0.3 and b + i > 0.3,
             "zero_prob_class": 0 in (i, q, b), "prob_one": 1 in (i, q, b),
-            "direct_batches": kind == "dense" and r.random() < 0.3}
+            "direct_batches": kind == "dense" and r.random() < 0.3,
+            "companion": None if r.random() < 0.7 else dict(params, interactive_prob=b, query_prob=i, batch_prob=q,
+                                                            num_pipelines=r.choice([1, 3, 9]), num_operators=r.choice([1, 4, 11]),
+                                                            waiting_seconds_mean=float(r.choice([1, 5, 40])) / tps,
+                                                            cpu_io_ratio=r.choice([0, 1]), random_seed=r.randint(0, 10 ** 9))}
